@@ -107,6 +107,16 @@ func init() {
 		}
 		return sl
 	})
+	// SymLenBytes: a zero-filled byte slice whose length is a solver variable in [0,max].
+	v("SymLenBytes", func(in *Interp, a []Value) Value {
+		name := in.conStr(a[0], "SymLenBytes")
+		max := int(in.concreteInt(a[1].(*Term), "SymLenBytes max"))
+		n := in.nondet(name, BV(64))
+		in.assume(in.F.ULe(n, in.F.Const(64, uint64(max))), "SymLenBytes bound")
+		sl := in.makeSlice(types.Typ[types.Uint8], max, max)
+		sl.slen = n
+		return sl
+	})
 	v("String", func(in *Interp, a []Value) Value {
 		name := in.conStr(a[0], "String")
 		n := int(in.concreteInt(a[1].(*Term), "String len"))
